@@ -1,13 +1,15 @@
 #!/venv/bin/python
-"""Observation made while reviewing C08 (not a C08 matter: the failure is the same in every run).
+"""Observation made while reviewing C08 (repaired in /repo 7b6f120; the failure was the same in every run, so it was not
+a determinism matter - since the repair, Parquet input WITH the protein level is one of C08's generated configurations).
 
-assign_confidence(..., proteins=P) on a dataset read from a Parquet PSM table always fails: the picked proteins are
-written with DataFrame.to_csv to `<dest_dir>/proteins.parquet` (the level file takes the extension of the input,
-mokapot/confidence.py 385-386 / 602) and then read back through TabularDataReader.from_path, which treats the
-name as Parquet -> pyarrow.lib.ArrowInvalid "Parquet magic bytes not found".  With the same table as tab-delimited text the
-protein level works.
+assign_confidence(..., proteins=P) on a dataset read from a Parquet PSM table always failed: the picked proteins were
+written with DataFrame.to_csv to `<dest_dir>/proteins.parquet` (the level file takes the extension of the input) and then
+read back through TabularDataReader.from_path, which treats the name as Parquet -> pyarrow.lib.ArrowInvalid "Parquet
+magic bytes not found".  With the same table as tab-delimited text the protein level worked.  7b6f120 writes the table
+with to_parquet when the path ends in .parquet.
 
-Run:  PYTHONPATH=/repo /venv/bin/python repo_fixes/OBS-parquet-input-protein-level.py     exit 1 = the failure shows."""
+Run:  PYTHONPATH=/repo /venv/bin/python repo_fixes/OBS-parquet-input-protein-level.py
+exit 1 = the failure shows (tree before 7b6f120), 0 = both formats give the six result files."""
 import logging
 import shutil
 import sys
